@@ -293,15 +293,19 @@ class Calls(Interp):
             self.clause_cache[text] = ast.parse(split_tag(text)[1].strip(), mode="eval").body
         return self.clause_cache[text]
 
-    def in_view(self, text):
+    def in_view(self, text, assuming=False):
         """Property view: when a check runs for one property, clauses tagged for other properties only are left out
-        (assuming less is sound; their obligations belong to the other property's check)."""
+        (assuming less is sound; their obligations belong to the other property's check).  A property may name other
+        properties whose clauses it *assumes* without proving them (`assume_props`): those clauses are obligations of the
+        named property's own check over the same functions (modular: proved there, used here)."""
         prop = self.opts.get("prop")
         tags = split_tag(text)[0]
-        return prop is None or tags is None or prop in tags
+        if prop is None or tags is None or prop in tags:
+            return True
+        return assuming and any(t in self.opts.get("assume_props", ()) for t in tags)
 
     def assume_clause(self, text, spec_env=None, old=None, env=None):
-        if not self.in_view(text):
+        if not self.in_view(text, assuming=True):
             return
         self.pol = 1
         self.assume(self.eval_clause(text, spec_env, old, env))
